@@ -40,6 +40,7 @@ let handle = function
   | L [A "neg"; a] -> res_sexp si_sexp (si_neg (si_of a))
   | L [A "dsis_add"; L s; L t] -> res_sexp (fun r -> L (List.map si_sexp r)) (dsis_add (List.map si_of s) (List.map si_of t))
   | L [A "dsis_sub"; L s; L t] -> res_sexp (fun r -> L (List.map si_sexp r)) (dsis_sub (List.map si_of s) (List.map si_of t))
+  | L [A "dsis_not"; L s] -> res_sexp (fun r -> L (List.map si_sexp r)) (dsis_not (List.map si_of s))
   | L [A "dsis_neg"; L s] -> res_sexp (fun r -> L (List.map si_sexp r)) (dsis_neg (List.map si_of s))
   | L [A "vs_add"; L v; c] -> res_sexp vs_sexp (vs_add_z (List.map reg_of v) (si_of c))
   | L [A "vs_sub"; L v; c] -> res_sexp vs_sexp (vs_sub_z (List.map reg_of v) (si_of c))
